@@ -156,7 +156,17 @@ func (x *toolCtx) oneTool(tr toolRun) {
 	cmd.Env = append(os.Environ(), "GOMAXPROCS=2", "GOTRACEBACK=single")
 	err := cmd.Run()
 	c.Count("tool_runs", 1)
-	c.Seen("tool", name+" "+strings.Join(tr.args[:minInt(len(tr.args), 3)], " "))
+	var label []string
+	for _, a := range tr.args[:minInt(len(tr.args), 4)] {
+		switch {
+		case strings.HasPrefix(a, c.Env.Scratch):
+			a = "<file>"
+		case len(a) > 12:
+			a = "<hex>"
+		}
+		label = append(label, a)
+	}
+	c.Seen("tool", name+" "+strings.Join(label, " "))
 	c.Evals(1)
 	var cpu time.Duration
 	if cmd.ProcessState != nil {
